@@ -264,7 +264,7 @@ Lemma prod_inv_step pa c0 slots s lb :
   prod_inv c0 slots s -> prod_inv c0 slots (step pa s lb).
 Proof.
   intros Hnum Hin [Hc Hev]. unfold step. destruct (s_panic s); [split; assumption|].
-  destruct lb as [we| | |order|i|i|sr pf|i|i|i|i|i]; try (split; assumption).
+  destruct lb as [we| | |order|i|sr pf|i|i|i|i|i]; try (split; assumption).
   - destruct (s_cur s) eqn:Ecur; [split; assumption|].
     destruct (_ && _) eqn:Econd; [|split; assumption].
     apply andb_true_iff in Econd as [_ Erev]. apply N.eqb_eq in Erev.
